@@ -52,6 +52,8 @@ def lib():
             return self.cls[idx]
 
         def getall_x(self):
+            if self.bulk == "alias":
+                return self.data  # the internal list itself (as KDRandomClassWrapper.getall_class does)
             return list(self.data)
 
         def getall_class(self):
@@ -59,6 +61,8 @@ def lib():
                 return torch.tensor(self.cls, dtype=torch.long)
             if self.bulk == "numpy":
                 return np.array(self.cls, dtype=np.int64)
+            if self.bulk == "alias":
+                return self.cls
             return list(self.cls)
 
         def getshape_class(self):
@@ -327,13 +331,46 @@ def check_spec(spec, bulk="list"):
         exp = list(model) if item == "x" else [clsof[m] for m in model]
         try:
             got = getattr(obj, f"getall_{item}")()
+            if len(got) > 4 * n + 8:
+                bad(f"getall_{item}", "differs_from_per_sample", f"{len(got)} entries for a dataset of {n}")
+                return out, model
             got = [tuple(g) if isinstance(g, (list, tuple)) else int(g) for g in got]
             if got != exp:
-                bad(f"getall_{item}", "differs_from_per_sample", f"expected {exp}, got {got}")
+                bad(f"getall_{item}", "differs_from_per_sample", f"expected {exp}, got {got[:40]}")
+                if bulk == "alias":
+                    return out, model  # aliased storage may now be corrupted: further calls could grow without bound
         except OK_EXC:
             pass
         except Exception as e:
             bad(f"getall_{item}", f"exception:{type(e).__name__}", repr(e))
+    # bulk accessors must not change anything: a second bulk call and the per-sample accessors afterwards agree with the model
+    try:
+        for item in ("x", "class"):
+            exp2 = list(model) if item == "x" else [clsof[m] for m in model]
+            for rep in (1, 2):
+                try:
+                    got = getattr(obj, f"getall_{item}")()
+                except OK_EXC:
+                    break
+                if len(got) > 4 * n + 8:
+                    bad(f"getall_{item}", "repeated_bulk_call_differs", f"call {rep + 1}: {len(got)} entries for a dataset of {n}")
+                    return out, model  # the stack keeps growing - stop touching it
+                got = [tuple(g) if isinstance(g, (list, tuple)) else int(g) for g in got]
+                if got != exp2:
+                    bad(f"getall_{item}", "repeated_bulk_call_differs", f"call {rep + 1}: expected {exp2}, got {got[:40]}")
+                    return out, model
+        if len(obj) != n:
+            bad("len", "changed_after_bulk_access", f"len {len(obj)} != {n}")
+        for k in range(-n, n):
+            if obj.getitem_x(k) != model[k] or obj.getitem_class(k) != clsof[model[k]]:
+                bad("getitem_x", "changed_after_bulk_access", f"k={k}: {obj.getitem_x(k)} / {obj.getitem_class(k)}", k < 0)
+                break
+        for b in env.bases:
+            if b.data != [(b.tag, j) for j in range(b.n)] or len(b.cls) != b.n:
+                bad("getall", "mutates_the_underlying_dataset", f"base {b.tag} now holds {b.data} / {b.cls}")
+                break
+    except Exception as e:
+        bad("getall", f"exception_on_repeated_access:{type(e).__name__}", repr(e))
     exp = [clsof[m] for m in model]
     gat = L["gat"]
     for fn in ("getall", "getall_as_list", "getall_as_numpy", "getall_as_tensor"):
@@ -422,7 +459,7 @@ def run(run):
         total += n
         step = max(200, n // 64)
         for lo in range(0, n, step):
-            tasks.append((k, lo, min(n, lo + step), maxfull, ("list",) if k > 3 else ("list", "tensor", "numpy")))
+            tasks.append((k, lo, min(n, lo + step), maxfull, ("list", "alias") if k > 3 else ("list", "alias", "tensor", "numpy")))
     run.pmap(task, tasks)
     run.extra.update(bounds=dict(max_nodes=K, base_sizes="0..3", sub_menu_full_up_to_nodes=maxfull),
                      stacks=total)
